@@ -14,6 +14,11 @@ import traceback
 
 from . import env
 
+if os.environ.get("PYTHONHASHSEED") != "0" and __name__ == "__main__":
+    # own the hash seed of the driver process too (workers inherit it from the environment)
+    os.environ["PYTHONHASHSEED"] = "0"
+    os.execve(sys.executable, [sys.executable, "-m", "mc.run"] + sys.argv[1:], os.environ)
+
 env.setup_env()
 
 
